@@ -4,8 +4,20 @@
 //! `tests/shutdown.rs::handover` does it, with the hook points of the cargo feature `verif-hooks`
 //! (harness feature `hooks`) serialised by a baton: between two hook points that enclose an access
 //! to shared state exactly one thread runs, so the order of the log IS the order of the accesses.
-//! Loopback clients (not instrumented) keep requesting, also with slow handlers that span the switch.
-//! The output is raw: the event log, the clients' ledger, who answered on the control socket, timings.
+//!
+//! An instance is a "process": its thread drops the tokio runtime (every task with it) as soon as
+//! its `wait()` has returned, as `main` of a real server returns then.  A `wait()` that resolves
+//! while a connection is still being served therefore shows in the clients' ledger as a cut connection.
+//!
+//! Clients (not instrumented): one back-to-back client per port and family (one request per
+//! connection), requests with a slow handler in flight across every switch, keep-alive clients whose
+//! connection spans the switch (busy: a request every few ms on the same connection; idle: one request,
+//! then silence until the server closes).  Every answer names the instance that wrote it.
+//! Waiters: for every instance `wait()` is called right after `execute()` (the process' own), when the
+//! instance has been told to shut down, and after its shutdown has completed.
+//! A prober asks the control socket who answers and records EVERY outcome together with the inode of
+//! the socket file.
+//! The output is raw: the event log, the clients' ledger, the prober's log, the waiters, timings.
 //! The mapping of the log to labels of Model/Handover.v and every check is done by driver/props/c11.py.
 use crate::xval::X;
 
@@ -16,7 +28,7 @@ mod run {
     use std::cell::Cell;
     use std::collections::HashMap;
     use std::io::{Read, Write};
-    use std::net::{IpAddr, Ipv4Addr, SocketAddr, TcpStream as StdStream};
+    use std::net::{IpAddr, Ipv4Addr, Ipv6Addr, SocketAddr, TcpStream as StdStream};
     use std::sync::atomic::{AtomicBool, AtomicU32, AtomicU64, Ordering};
     use std::sync::{Arc, Condvar, Mutex};
     use std::thread::ThreadId;
@@ -24,7 +36,8 @@ mod run {
 
     thread_local! { static INST: Cell<u32> = const { Cell::new(99) }; }
 
-    const WATCHDOG: Duration = Duration::from_secs(10);
+    /// a thread that waits this long for the baton gives up (the run is then harness trouble, not a verdict)
+    const WATCHDOG: Duration = Duration::from_secs(20);
 
     struct Ev {
         inst: u32,
@@ -32,6 +45,14 @@ mod run {
         point: &'static str,
         val: i64,
         t_us: u64,
+    }
+    pub struct Delay {
+        pub name: String,
+        pub ms: u64,
+        /// how many arrivals per instance are delayed (counted while the instance starts up or is being replaced)
+        pub reps: u32,
+        /// instances >= this one
+        pub from: u32,
     }
     #[derive(Default)]
     struct Inner {
@@ -41,17 +62,22 @@ mod run {
         stalled: u32,
         tids: HashMap<u64, u64>,
         rng: u64,
+        delayed: HashMap<(u32, usize), u32>,
+        /// instance -> time of its `ctl.recv` (it has been told to shut down)
+        told: HashMap<u32, u64>,
+        /// instance -> time of its `ct.exit` (the shutdown-complete signal has been sent)
+        fin: HashMap<u32, u64>,
+        /// the newest instance that has been started, and the instances whose `execute` has returned
+        newest: u32,
+        executed: std::collections::HashSet<u32>,
     }
     pub struct Ctx {
         m: Mutex<Inner>,
         cv: Condvar,
         t0: Instant,
         jitter_us: u64,
-        d_bind: u64,
-        d_send: u64,
-        d_close: u64,
-        /// delays apply to instances >= this one (the first instance starts undisturbed)
-        delay_from: u32,
+        delays: Vec<Delay>,
+        ports: Vec<u16>,
     }
 
     fn hash_id<T: std::hash::Hash>(t: &T) -> u64 {
@@ -65,8 +91,8 @@ mod run {
     fn closed(name: &str) -> bool {
         matches!(
             name,
-            "ex.bind" | "sh.enter" | "sh.set" | "sh.init" | "sh.swap" | "sh.notify" | "ap.poll" | "ap.flag" | "ap.waker"
-                | "al.got" | "al.counted" | "al.shut" | "al.exit" | "rm.enter" | "rm.dec" | "rm.flag" | "ct.start" | "ct.sent"
+            "ex.bind" | "hx.listen" | "sh.enter" | "sh.set" | "sh.init" | "sh.swap" | "sh.notify" | "ap.poll" | "ap.flag" | "ap.waker"
+                | "al.got" | "al.counted" | "al.shut" | "al.exit" | "rm.enter" | "rm.dec" | "rm.flag" | "ct.start" | "ct.sent" | "hx.resp"
         )
     }
 
@@ -90,11 +116,31 @@ mod run {
             }
             let tid = Self::tid(&mut g);
             let t_us = self.now();
+            if point == "h.start" {
+                g.newest = val as u32;
+            } else if point == "h.executed" {
+                g.executed.insert(val as u32);
+            }
             g.log.push(Ev { inst: INST.with(Cell::get), tid, point, val, t_us });
+        }
+        fn push(&self, g: &mut Inner, inst: u32, tid: u64, name: &'static str, val: i64) {
+            let t_us = self.now();
+            if name == "ctl.recv" {
+                g.told.entry(inst).or_insert(t_us);
+            } else if name == "ct.exit" {
+                g.fin.entry(inst).or_insert(t_us);
+            }
+            g.log.push(Ev { inst, tid, point: name, val, t_us });
         }
         fn arrive(&self, name: &'static str, val: i64) {
             let me = std::thread::current().id();
             let inst = INST.with(Cell::get);
+            if name == "ctl.send" && inst != 99 {
+                // what the kernel says just before the predecessor is told: sockets in listening state on each port
+                for (ix, cnt) in listening_sockets(&self.ports).into_iter().enumerate() {
+                    self.note("h.lsn", if cnt < 0 { -1 } else { (ix as i64) * 1000 + cnt });
+                }
+            }
             let mut g = self.m.lock().unwrap();
             if g.free {
                 return;
@@ -103,8 +149,7 @@ mod run {
             let held = g.holder == Some(me);
             if held {
                 // the segment since the previous point ends here
-                let t_us = self.now();
-                g.log.push(Ev { inst, tid, point: name, val, t_us });
+                self.push(&mut g, inst, tid, name, val);
                 g.holder = None;
                 self.cv.notify_all();
             }
@@ -113,16 +158,17 @@ mod run {
             g.rng ^= g.rng >> 7;
             g.rng ^= g.rng << 17;
             let mut d = if self.jitter_us > 0 { g.rng % self.jitter_us } else { 0 };
-            if inst >= self.delay_from && inst != 99 {
-                d += 1000
-                    * match name {
-                        "ex.bind" => self.d_bind,
-                        "ctl.send" => self.d_send,
-                        _ => 0,
-                    };
-            }
-            if inst != 99 && name == "al.shut" {
-                d += 1000 * self.d_close;
+            // directed delays hit the instance that is starting up and the instances that are being (or have been) replaced
+            if inst != 99 && (inst < g.newest || !g.executed.contains(&inst)) {
+                for (ix, dl) in self.delays.iter().enumerate() {
+                    if dl.name == name && inst >= dl.from {
+                        let c = g.delayed.entry((inst, ix)).or_insert(0);
+                        if *c < dl.reps {
+                            *c += 1;
+                            d += 1000 * dl.ms;
+                        }
+                    }
+                }
             }
             drop(g);
             if d > 0 {
@@ -147,13 +193,11 @@ mod run {
                     return;
                 }
                 if !held {
-                    let t_us = self.now();
-                    g.log.push(Ev { inst, tid, point: name, val, t_us });
+                    self.push(&mut g, inst, tid, name, val);
                 }
                 g.holder = Some(me);
             } else if !held {
-                let t_us = self.now();
-                g.log.push(Ev { inst, tid, point: name, val, t_us });
+                self.push(&mut g, inst, tid, name, val);
             }
         }
         fn set_free(&self) {
@@ -162,20 +206,85 @@ mod run {
             g.holder = None;
             self.cv.notify_all();
         }
+        fn told(&self, i: u32) -> Option<u64> {
+            self.m.lock().unwrap().told.get(&i).copied()
+        }
+        fn fin(&self, i: u32) -> Option<u64> {
+            self.m.lock().unwrap().fin.get(&i).copied()
+        }
     }
 
-    static PORT_COUNTER: AtomicU32 = AtomicU32::new(0);
-    fn next_port() -> u16 {
-        let n = PORT_COUNTER.fetch_add(1, Ordering::Relaxed);
-        // below the ephemeral range (32768..): an outgoing connection of any process on the machine that happens to use
-        // the port as its local port makes bind() fail
-        (27_100 + (std::process::id() % 56) * 100 + n % 100) as u16
+    /// number of this process' TCP sockets in listening state (SO_ACCEPTCONN) on each of the ports, both families: every
+    /// instance of the chain lives in this process.  (/proc/net/tcp would say the same for the whole machine, but reading it
+    /// takes seconds when the machine has many sockets.)  -1: /proc/self/fd unreadable
+    fn listening_sockets(ports: &[u16]) -> Vec<i64> {
+        use std::os::fd::BorrowedFd;
+        let dir = match std::fs::read_dir("/proc/self/fd") {
+            Ok(d) => d,
+            Err(_) => return vec![-1; ports.len()],
+        };
+        let mut n = vec![0i64; ports.len()];
+        for e in dir.flatten() {
+            let fd: i32 = match e.file_name().to_str().and_then(|s| s.parse().ok()) {
+                Some(fd) => fd,
+                None => continue,
+            };
+            if !std::fs::read_link(e.path()).map(|l| l.to_string_lossy().starts_with("socket:")).unwrap_or(false) {
+                continue;
+            }
+            // read-only queries on a descriptor that may be closed (or reused) by now: they fail or describe another socket
+            let b = unsafe { BorrowedFd::borrow_raw(fd) };
+            let s = socket2::SockRef::from(&b);
+            if !s.is_listener().unwrap_or(false) {
+                continue;
+            }
+            if let Some(port) = s.local_addr().ok().and_then(|a| a.as_socket()).map(|a| a.port()) {
+                if let Some(k) = ports.iter().position(|p| *p == port) {
+                    n[k] += 1;
+                }
+            }
+        }
+        n
     }
+
+    // ---- ports -------------------------------------------------------------------------------------
+    // Above the range the kernel takes local ports of outgoing connections from (32768..60999) and above every range
+    // another check's harness uses: nobody else binds or connects from these.  Harness processes of this check (also of
+    // other sandboxes on the machine) keep out of each other's way with a lock file per block of four ports: with
+    // SO_REUSEPORT a foreign server on the same port would not make bind() fail, it would take connections.
+    static PORT_COUNTER: AtomicU32 = AtomicU32::new(0);
+    const PORT_BASE: u32 = 61_000;
+    const PORT_BLOCKS: u32 = 1_100;
     fn port_is_free(port: u16) -> bool {
-        match StdStream::connect_timeout(&SocketAddr::new(IpAddr::V4(Ipv4Addr::LOCALHOST), port), Duration::from_secs(2)) {
+        let v4 = match StdStream::connect_timeout(&SocketAddr::new(IpAddr::V4(Ipv4Addr::LOCALHOST), port), Duration::from_secs(2)) {
             Err(e) => e.kind() == std::io::ErrorKind::ConnectionRefused,
             Ok(_) => false,
+        };
+        let v6 = match StdStream::connect_timeout(&SocketAddr::new(IpAddr::V6(Ipv6Addr::LOCALHOST), port), Duration::from_secs(2)) {
+            Err(e) => e.kind() != std::io::ErrorKind::TimedOut,
+            Ok(_) => false,
+        };
+        v4 && v6
+    }
+    fn claim_ports(n: usize) -> Option<(Vec<u16>, std::fs::File)> {
+        let dir = std::env::temp_dir().join("kvh-c11-ports");
+        let _ = std::fs::create_dir_all(&dir);
+        for _ in 0..300 {
+            let c = PORT_COUNTER.fetch_add(1, Ordering::Relaxed);
+            let block = (std::process::id().wrapping_mul(37).wrapping_add(c.wrapping_mul(101))) % PORT_BLOCKS;
+            let f = match std::fs::OpenOptions::new().create(true).truncate(false).write(true).open(dir.join(format!("{block}.lock"))) {
+                Ok(f) => f,
+                Err(_) => continue,
+            };
+            if f.try_lock().is_err() {
+                continue;
+            }
+            let ports: Vec<u16> = (0..n as u32).map(|k| (PORT_BASE + block * 4 + k) as u16).collect();
+            if ports.iter().all(|p| port_is_free(*p)) {
+                return Some((ports, f));
+            }
         }
+        None
     }
 
     pub struct Params {
@@ -184,14 +293,20 @@ mod run {
         pub flavour: u8, // 0 current-thread, 1 multi-thread (2 workers)
         pub seed: u64,
         pub jitter_us: u64,
-        pub d_bind: u64,
-        pub d_send: u64,
-        pub d_close: u64,
+        pub delays: Vec<Delay>,
         pub slow_ms: u64,
         pub nslow: usize,
         pub gap_ms: u64,
-        /// 0: successors are started when the predecessor answers on the control socket; 1: as soon as `execute` returned
+        /// 0: successors are started when the predecessor answers on the control socket; 1: as soon as its `execute` returned
         pub eager: bool,
+        /// bit 0: a busy keep-alive client per port, bit 1: an idle keep-alive connection is opened before every handover
+        pub ka: u8,
+        /// both address families: two listeners per port
+        pub dual: bool,
+        /// a stale socket file (nobody listens) is at the path before the first instance starts
+        pub stale: bool,
+        /// after `execute` returned the instance's main task blocks its thread for this long before it calls `wait()`
+        pub block_ms: u64,
         /// a failed bind() of a successor is reported as it is (after two attempts on other ports it is not a collision)
         pub last_attempt: bool,
     }
@@ -215,10 +330,12 @@ mod run {
         let path = path.to_path_buf();
         let flavour = p.flavour;
         let slow_ms = p.slow_ms;
+        let dual = p.dual;
+        let block_ms = p.block_ms;
         let thread = std::thread::spawn(move || {
             INST.with(|c| c.set(i));
             let rt = if flavour == 0 {
-                tokio::runtime::Builder::new_current_thread().enable_all().build().unwrap()
+                tokio::runtime::Builder::new_current_thread().on_thread_start(move || INST.with(|c| c.set(i))).enable_all().build().unwrap()
             } else {
                 tokio::runtime::Builder::new_multi_thread()
                     .worker_threads(2)
@@ -229,13 +346,14 @@ mod run {
             };
             let main = async move {
                 let mut ext = Extensions::empty();
+                let me = i;
                 ext.add_prepare_fn(
                     Box::new(|_, _| true),
-                    prepare!(req, _host, _path, _addr, move |slow_ms: u64| {
+                    prepare!(req, _host, _path, _addr, move |slow_ms: u64, me: u32| {
                         if req.uri().path() == "/slow" {
                             tokio::time::sleep(Duration::from_millis(*slow_ms)).await;
                         }
-                        FatResponse::no_cache(Response::new(Bytes::from_static(b"served")))
+                        FatResponse::no_cache(Response::new(Bytes::from(format!("served by {me}"))))
                     }),
                     extensions::Id::new(0, "c11 handler"),
                 );
@@ -245,7 +363,8 @@ mod run {
                 let data = HostCollection::builder().insert(host).build();
                 let mut rc = RunConfig::new();
                 for port in &ports {
-                    rc = rc.bind(PortDescriptor::unsecure(*port, Arc::clone(&data)).ipv4_only());
+                    let d = PortDescriptor::unsecure(*port, Arc::clone(&data));
+                    rc = rc.bind(if dual { d } else { d.ipv4_only() });
                 }
                 let who: kvarn::ctl::Plugin = Box::new(move |_args, _ports, _sd, _plugins| {
                     Box::pin(async move { kvarn::ctl::PluginResponse::ok(format!("{i}")) })
@@ -254,55 +373,71 @@ mod run {
                 ctx2.note("h.executed", i64::from(i));
                 e2.store(true, Ordering::SeqCst);
                 let _ = tx_mgr.send(Arc::clone(&mgr));
+                if block_ms > 0 {
+                    // the application does something synchronous between execute() and wait()
+                    std::thread::sleep(Duration::from_millis(block_ms));
+                }
                 mgr.wait().await;
                 ctx2.note("h.waited", i64::from(i));
                 w2.store(true, Ordering::SeqCst);
             };
             rt.block_on(async move {
                 let h = tokio::spawn(main);
-                let _ = rx_stop.await;
-                h.abort();
+                tokio::pin!(h);
+                tokio::select! {
+                    _ = &mut h => {}
+                    _ = rx_stop => { h.abort(); }
+                }
             });
+            // the process ends here: wait() has returned (or the harness gave up on it)
             rt.shutdown_timeout(Duration::from_millis(500));
         });
         // `execute` of a successor returns only after the predecessor has replied
-        let mgr = rx_mgr.recv_timeout(Duration::from_secs(20)).ok();
+        let mgr = rx_mgr.recv_timeout(Duration::from_secs(30)).ok();
         Instance { stop: Some(tx_stop), thread: Some(thread), mgr, executed, waited }
     }
 
     // ---- clients ---------------------------------------------------------------------------------
+    /// kinds: 0 back-to-back, 1 slow handler, 2 busy keep-alive, 3 idle keep-alive
     /// result codes: 0 complete, 1 connect refused, 2 closed/reset before any byte of a response,
-    /// 3 response cut short, 4 timed out, 5 other connect error (`local` = errno), 6 connect reset, 7 no local address available
+    /// 3 response cut short, 4 timed out, 5 other connect error (`local` = errno), 6 connect reset, 7 no local address available;
+    /// of the idle connection's second record: 10 closed by the server (EOF), 11 reset, 12 still open at the time limit
     struct Exchange {
-        slow: bool,
+        kind: u8,
         local: u16,
         port_ix: usize,
         t_start: u64,
         t_end: u64,
         result: u8,
+        conn: u64,
+        seq: u32,
+        /// instance named in the answer, + 1 (0: none)
+        who: u32,
+        v6: bool,
     }
-    fn exchange(port: u16, slow: bool, timeout: Duration) -> (u16, u8) {
-        let addr = SocketAddr::new(IpAddr::V4(Ipv4Addr::LOCALHOST), port);
-        let mut s = match StdStream::connect_timeout(&addr, Duration::from_secs(5)) {
-            Ok(s) => s,
-            Err(e) => {
-                return (
-                    e.raw_os_error().unwrap_or(0) as u16,
-                    match e.kind() {
-                        std::io::ErrorKind::ConnectionRefused => 1,
-                        std::io::ErrorKind::ConnectionReset => 6,
-                        std::io::ErrorKind::AddrNotAvailable | std::io::ErrorKind::AddrInUse => 7,
-                        _ => 5,
-                    },
-                )
-            }
-        };
-        let local = s.local_addr().map(|a| a.port()).unwrap_or(0);
+    static CONN_COUNTER: AtomicU64 = AtomicU64::new(0);
+
+    fn connect(port: u16, v6: bool) -> Result<StdStream, (u16, u8)> {
+        let ip = if v6 { IpAddr::V6(Ipv6Addr::LOCALHOST) } else { IpAddr::V4(Ipv4Addr::LOCALHOST) };
+        StdStream::connect_timeout(&SocketAddr::new(ip, port), Duration::from_secs(10)).map_err(|e| {
+            (
+                e.raw_os_error().unwrap_or(0) as u16,
+                match e.kind() {
+                    std::io::ErrorKind::ConnectionRefused => 1,
+                    std::io::ErrorKind::ConnectionReset => 6,
+                    std::io::ErrorKind::AddrNotAvailable | std::io::ErrorKind::AddrInUse => 7,
+                    _ => 5,
+                },
+            )
+        })
+    }
+    /// one request and its answer on an open connection
+    fn request(s: &mut StdStream, path: &str, timeout: Duration) -> (u8, u32) {
         let _ = s.set_read_timeout(Some(timeout));
         let _ = s.set_write_timeout(Some(timeout));
-        let req = format!("GET {} HTTP/1.1\r\nhost: localhost\r\n\r\n", if slow { "/slow" } else { "/" });
+        let req = format!("GET {path} HTTP/1.1\r\nhost: localhost\r\n\r\n");
         if s.write_all(req.as_bytes()).is_err() {
-            return (local, 2);
+            return (2, 0);
         }
         let mut buf = Vec::new();
         let mut tmp = [0u8; 2048];
@@ -315,15 +450,16 @@ mod run {
                     .find_map(|l| l.strip_prefix("content-length:").map(|v| v.trim().parse::<usize>().unwrap_or(0)))
                     .unwrap_or(0);
                 if buf.len() >= pos + 4 + len {
-                    return (local, if head.starts_with("http/1.1 ") { 0 } else { 3 });
+                    let body = String::from_utf8_lossy(&buf[pos + 4..pos + 4 + len]).to_string();
+                    let who = body.strip_prefix("served by ").and_then(|s| s.trim().parse::<u32>().ok()).map_or(0, |w| w + 1);
+                    return (if head.starts_with("http/1.1 ") { 0 } else { 3 }, who);
                 }
             }
             match s.read(&mut tmp) {
-                Ok(0) => return (local, if buf.is_empty() { 2 } else { 3 }),
+                Ok(0) => return (if buf.is_empty() { 2 } else { 3 }, 0),
                 Ok(n) => buf.extend_from_slice(&tmp[..n]),
                 Err(e) => {
                     return (
-                        local,
                         match e.kind() {
                             std::io::ErrorKind::WouldBlock | std::io::ErrorKind::TimedOut => 4,
                             _ => {
@@ -334,70 +470,102 @@ mod run {
                                 }
                             }
                         },
+                        0,
                     )
                 }
             }
         }
     }
+    /// one connection, one request
+    fn exchange(ctx: &Ctx, kind: u8, port: u16, port_ix: usize, v6: bool, path: &str, timeout: Duration) -> Exchange {
+        let conn = CONN_COUNTER.fetch_add(1, Ordering::Relaxed);
+        let t_start = ctx.now();
+        match connect(port, v6) {
+            Err((errno, code)) => Exchange { kind, local: errno, port_ix, t_start, t_end: ctx.now(), result: code, conn, seq: 0, who: 0, v6 },
+            Ok(mut s) => {
+                let local = s.local_addr().map(|a| a.port()).unwrap_or(0);
+                let (result, who) = request(&mut s, path, timeout);
+                Exchange { kind, local, port_ix, t_start, t_end: ctx.now(), result, conn, seq: 0, who, v6 }
+            }
+        }
+    }
 
+    /// run-length encoded log of the prober: (start of the first probe, end of the first probe, end of the last probe, count, outcome,
+    /// id, inode of the socket file)
+    /// outcomes: 0 answered by instance `id`, 1 NotFound (no file, or nobody listens), 2 Error, 3 no answer within the time
+    /// limit, 4 an answer that is not `ok <id>`
+    type Probe = (u64, u64, u64, u32, u8, u32, u64);
+
+    #[allow(clippy::too_many_lines)]
     pub fn run(p: &Params) -> X {
+        // ports and path unique to this process and case
+        let (ports, _port_lock) = match claim_ports(p.nports) {
+            Some(x) => x,
+            None => return X::L(vec![X::N(96), X::N(3)]),
+        };
         let ctx = Arc::new(Ctx {
             m: Mutex::new(Inner { rng: p.seed | 1, ..Inner::default() }),
             cv: Condvar::new(),
             t0: Instant::now(),
             jitter_us: p.jitter_us,
-            d_bind: p.d_bind,
-            d_send: p.d_send,
-            d_close: p.d_close,
-            delay_from: 1,
+            delays: p.delays.iter().map(|d| Delay { name: d.name.clone(), ms: d.ms, reps: d.reps, from: d.from }).collect(),
+            ports: ports.clone(),
         });
-        // ports and path unique to this process and case
-        let mut ports = Vec::new();
-        for _ in 0..p.nports {
-            let mut port = next_port();
-            let mut tries = 0;
-            while !port_is_free(port) || ports.contains(&port) {
-                port = next_port();
-                tries += 1;
-                if tries > 90 {
-                    return X::L(vec![X::N(96), X::N(3)]);
-                }
-            }
-            ports.push(port);
-        }
         let path = std::env::temp_dir().join(format!("kvh-c11-{}-{}.sock", std::process::id(), ports[0]));
         let _ = std::fs::remove_file(&path);
+        if p.stale {
+            // what a crashed instance leaves behind: a socket file nobody listens on
+            drop(std::os::unix::net::UnixListener::bind(&path));
+        }
         let c2 = Arc::clone(&ctx);
         kvarn::verif::set_hook(Some(Arc::new(move |name, val| c2.arrive(name, val))));
 
         let exchanges: Arc<Mutex<Vec<Exchange>>> = Arc::new(Mutex::new(Vec::new()));
-        let who_seq: Arc<Mutex<Vec<(u64, u32)>>> = Arc::new(Mutex::new(Vec::new()));
+        let probes: Arc<Mutex<Vec<Probe>>> = Arc::new(Mutex::new(Vec::new()));
         let serving = Arc::new(AtomicU64::new(u64::MAX));
         let stop_clients = Arc::new(AtomicBool::new(false));
         let mut client_threads = Vec::new();
 
-        // control-socket prober: who answers at the path?
+        // control-socket prober: who answers at the path?  every outcome is recorded
         {
-            let (path, who_seq, serving, stop, ctx) =
-                (path.clone(), Arc::clone(&who_seq), Arc::clone(&serving), Arc::clone(&stop_clients), Arc::clone(&ctx));
+            let (path, probes, serving, stop, ctx) =
+                (path.clone(), Arc::clone(&probes), Arc::clone(&serving), Arc::clone(&stop_clients), Arc::clone(&ctx));
             client_threads.push(std::thread::spawn(move || {
+                use std::os::unix::fs::MetadataExt;
                 let rt = tokio::runtime::Builder::new_current_thread().enable_all().build().unwrap();
                 while !stop.load(Ordering::SeqCst) {
+                    let t = ctx.now();
+                    let ino = std::fs::metadata(&path).map(|m| m.ino()).unwrap_or(0);
                     let r = rt.block_on(async {
-                        tokio::time::timeout(Duration::from_secs(2), kvarn_signal::unix::send_to(b"whoami".to_vec(), &path)).await
+                        tokio::time::timeout(Duration::from_secs(5), kvarn_signal::unix::send_to(b"whoami".to_vec(), &path)).await
                     });
-                    if let Ok(kvarn_signal::unix::Response::Data(d)) = r {
-                        if let Some(id) = std::str::from_utf8(&d).ok().and_then(|s| s.strip_prefix("ok ")).and_then(|s| s.trim().parse::<u32>().ok()) {
-                            let mut g = who_seq.lock().unwrap();
-                            if g.last().map(|l| l.1) != Some(id) {
-                                g.push((ctx.now(), id));
+                    let (outcome, id) = match r {
+                        Ok(kvarn_signal::unix::Response::Data(d)) => {
+                            match std::str::from_utf8(&d).ok().and_then(|s| s.strip_prefix("ok ")).and_then(|s| s.trim().parse::<u32>().ok()) {
+                                Some(id) => (0u8, id),
+                                None => (4, 0),
                             }
-                            drop(g);
-                            let prev = serving.load(Ordering::SeqCst);
-                            if prev == u64::MAX || prev < u64::from(id) {
-                                ctx.note("h.serves", i64::from(id));
-                                serving.store(u64::from(id), Ordering::SeqCst);
+                        }
+                        Ok(kvarn_signal::unix::Response::NotFound) => (1, 0),
+                        Ok(kvarn_signal::unix::Response::Error) => (2, 0),
+                        Err(_) => (3, 0),
+                    };
+                    {
+                        let t_end = ctx.now();
+                        let mut g = probes.lock().unwrap();
+                        match g.last_mut() {
+                            Some(l) if l.4 == outcome && l.5 == id && l.6 == ino => {
+                                l.2 = t_end;
+                                l.3 += 1;
                             }
+                            _ => g.push((t, t_end, t_end, 1, outcome, id, ino)),
+                        }
+                    }
+                    if outcome == 0 {
+                        let prev = serving.load(Ordering::SeqCst);
+                        if prev == u64::MAX || prev < u64::from(id) {
+                            ctx.note("h.serves", i64::from(id));
+                            serving.store(u64::from(id), Ordering::SeqCst);
                         }
                     }
                     std::thread::sleep(Duration::from_millis(2));
@@ -406,7 +574,7 @@ mod run {
         }
 
         let mut instances: Vec<Instance> = Vec::new();
-        let mut timings: Vec<X> = Vec::new();
+        let mut timings: Vec<Vec<u64>> = Vec::new();
         let wait_until = |cond: &dyn Fn() -> bool, limit: Duration| -> bool {
             let deadline = Instant::now() + limit;
             while !cond() {
@@ -419,7 +587,7 @@ mod run {
         };
         ctx.note("h.start", 0);
         instances.push(start_instance(&ctx, 0, p, &ports, &path));
-        let up0 = instances[0].mgr.is_some() && wait_until(&|| serving.load(Ordering::SeqCst) == 0, Duration::from_secs(20));
+        let up0 = instances[0].mgr.is_some() && wait_until(&|| serving.load(Ordering::SeqCst) == 0, Duration::from_secs(30));
         if !up0 || instances[0].mgr.is_none() {
             if std::env::var_os("KVH_C11_DEBUG").is_some() {
                 let g = ctx.m.lock().unwrap();
@@ -430,7 +598,14 @@ mod run {
             }
             ctx.set_free();
             kvarn::verif::set_hook(None);
-            let code = if instances[0].mgr.is_none() && !p.last_attempt { 5 } else { 4 };
+            // 5: execute() did not return on the first attempt (ports?); 6: it returned, but nobody answers at the path; 4: it did not return
+            let code = if instances[0].mgr.is_none() && !p.last_attempt {
+                5
+            } else if instances[0].mgr.is_some() {
+                6
+            } else {
+                4
+            };
             for inst in &mut instances {
                 if let Some(m) = &inst.mgr {
                     m.shutdown();
@@ -444,34 +619,160 @@ mod run {
             // 94: the first instance does not come up (execute() does not return or nobody answers on the control socket)
             return X::L(vec![X::N(if code == 5 { 96 } else { 94 }), X::N(code)]);
         }
-        // fast clients: one thread per port, back to back
-        for (ix, port) in ports.iter().enumerate() {
-            let (ex, stop, ctx, port) = (Arc::clone(&exchanges), Arc::clone(&stop_clients), Arc::clone(&ctx), *port);
+
+        // the managers, for the waiters (a waiter is a call of `wait()` from outside the instance's runtime: the future only
+        // watches the manager's channel)
+        let managers: Arc<Mutex<Vec<Arc<shutdown::Manager>>>> = Arc::new(Mutex::new(vec![Arc::clone(instances[0].mgr.as_ref().unwrap())]));
+        /// (instance, kind 1 = called when told / 2 = called after the shutdown completed, time of the call, time it resolved or 0)
+        type Waiter = (u32, u8, u64, Arc<AtomicU64>);
+        let waiters: Arc<Mutex<Vec<Waiter>>> = Arc::new(Mutex::new(Vec::new()));
+        {
+            let (managers, waiters, stop, ctx) = (Arc::clone(&managers), Arc::clone(&waiters), Arc::clone(&stop_clients), Arc::clone(&ctx));
             client_threads.push(std::thread::spawn(move || {
-                while !stop.load(Ordering::SeqCst) {
-                    let t_start = ctx.now();
-                    let (local, result) = exchange(port, false, Duration::from_secs(8));
-                    ex.lock().unwrap().push(Exchange { slow: false, local, port_ix: ix, t_start, t_end: ctx.now(), result });
-                    std::thread::sleep(Duration::from_micros(700));
-                }
+                let rt = tokio::runtime::Builder::new_current_thread().enable_all().build().unwrap();
+                rt.block_on(async move {
+                    let mut made: std::collections::HashSet<(u32, u8)> = std::collections::HashSet::new();
+                    while !stop.load(Ordering::SeqCst) {
+                        let ms: Vec<Arc<shutdown::Manager>> = managers.lock().unwrap().clone();
+                        for (i, m) in ms.iter().enumerate() {
+                            let i = i as u32;
+                            for kind in [1u8, 2u8] {
+                                if made.contains(&(i, kind)) {
+                                    continue;
+                                }
+                                let due = if kind == 1 { ctx.told(i).is_some() } else { ctx.fin(i).is_some_and(|t| ctx.now() >= t + 3_000) };
+                                if !due {
+                                    continue;
+                                }
+                                made.insert((i, kind));
+                                let done = Arc::new(AtomicU64::new(0));
+                                ctx.note("h.wnew", i64::from(i) * 4 + i64::from(kind));
+                                waiters.lock().unwrap().push((i, kind, ctx.now(), Arc::clone(&done)));
+                                let (m, ctx) = (Arc::clone(m), Arc::clone(&ctx));
+                                tokio::spawn(async move {
+                                    m.wait().await;
+                                    ctx.note("h.wres", i64::from(i) * 4 + i64::from(kind));
+                                    done.store(ctx.now().max(1), Ordering::SeqCst);
+                                });
+                            }
+                        }
+                        tokio::time::sleep(Duration::from_millis(1)).await;
+                    }
+                });
             }));
         }
+        let waiters_done = |i: u32| -> bool {
+            let g = waiters.lock().unwrap();
+            [1u8, 2u8].iter().all(|k| g.iter().any(|w| w.0 == i && w.1 == *k && w.3.load(Ordering::SeqCst) != 0))
+        };
+
+        // back-to-back clients: one thread per port and family, one request per connection
+        let families: &[bool] = if p.dual { &[false, true] } else { &[false] };
+        for (ix, port) in ports.iter().enumerate() {
+            for v6 in families {
+                let (ex, stop, ctx, port, v6) = (Arc::clone(&exchanges), Arc::clone(&stop_clients), Arc::clone(&ctx), *port, *v6);
+                client_threads.push(std::thread::spawn(move || {
+                    while !stop.load(Ordering::SeqCst) {
+                        let e = exchange(&ctx, 0, port, ix, v6, "/", Duration::from_secs(15));
+                        ex.lock().unwrap().push(e);
+                        std::thread::sleep(Duration::from_micros(700));
+                    }
+                }));
+            }
+        }
+        // busy keep-alive clients: one per port; a request every few ms on the same connection for as long as the server
+        // keeps it, then a new connection
+        if p.ka & 1 != 0 {
+            for (ix, port) in ports.iter().enumerate() {
+                let (ex, stop, ctx, port) = (Arc::clone(&exchanges), Arc::clone(&stop_clients), Arc::clone(&ctx), *port);
+                let v6 = p.dual && ix % 2 == 1;
+                let mut pace = p.seed.wrapping_mul(0x9E37_79B9_7F4A_7C15).wrapping_add(ix as u64) | 1;
+                client_threads.push(std::thread::spawn(move || {
+                    while !stop.load(Ordering::SeqCst) {
+                        let conn = CONN_COUNTER.fetch_add(1, Ordering::Relaxed);
+                        let t_start = ctx.now();
+                        let mut s = match connect(port, v6) {
+                            Ok(s) => s,
+                            Err((errno, code)) => {
+                                ex.lock().unwrap().push(Exchange { kind: 2, local: errno, port_ix: ix, t_start, t_end: ctx.now(), result: code, conn, seq: 0, who: 0, v6 });
+                                std::thread::sleep(Duration::from_millis(1));
+                                continue;
+                            }
+                        };
+                        let local = s.local_addr().map(|a| a.port()).unwrap_or(0);
+                        let mut seq = 0u32;
+                        while !stop.load(Ordering::SeqCst) {
+                            let t_start = ctx.now();
+                            let (result, who) = request(&mut s, "/ka", Duration::from_secs(15));
+                            ex.lock().unwrap().push(Exchange { kind: 2, local, port_ix: ix, t_start, t_end: ctx.now(), result, conn, seq, who, v6 });
+                            if result != 0 {
+                                break;
+                            }
+                            seq += 1;
+                            pace ^= pace << 13;
+                            pace ^= pace >> 7;
+                            pace ^= pace << 17;
+                            std::thread::sleep(Duration::from_micros(2_000 + pace % 6_000));
+                        }
+                    }
+                }));
+            }
+        }
+
         let mut slow_threads = Vec::new();
+        let mut started = 0usize;
         for h in 1..=p.handovers {
-            std::thread::sleep(Duration::from_millis(p.gap_ms));
+            if !p.eager || h == 1 {
+                std::thread::sleep(Duration::from_millis(p.gap_ms));
+            }
             // slow requests that will span the switch
             for k in 0..p.nslow {
                 let (ex, ctx) = (Arc::clone(&exchanges), Arc::clone(&ctx));
                 let ix = k % ports.len();
                 let port = ports[ix];
-                let limit = Duration::from_millis(p.slow_ms + 8000);
+                let v6 = p.dual && k % 2 == 1;
+                let limit = Duration::from_millis(p.slow_ms + 15_000);
                 slow_threads.push(std::thread::spawn(move || {
-                    let t_start = ctx.now();
-                    let (local, result) = exchange(port, true, limit);
-                    ex.lock().unwrap().push(Exchange { slow: true, local, port_ix: ix, t_start, t_end: ctx.now(), result });
+                    let e = exchange(&ctx, 1, port, ix, v6, "/slow", limit);
+                    ex.lock().unwrap().push(e);
                 }));
             }
-            if p.nslow > 0 {
+            // an idle keep-alive connection: one request, then silence until the server closes it
+            if p.ka & 2 != 0 {
+                let (ex, ctx) = (Arc::clone(&exchanges), Arc::clone(&ctx));
+                let port = ports[0];
+                let limit = Duration::from_millis(p.slow_ms + 20_000);
+                slow_threads.push(std::thread::spawn(move || {
+                    let conn = CONN_COUNTER.fetch_add(1, Ordering::Relaxed);
+                    let t_start = ctx.now();
+                    let mut s = match connect(port, false) {
+                        Ok(s) => s,
+                        Err((errno, code)) => {
+                            ex.lock().unwrap().push(Exchange { kind: 3, local: errno, port_ix: 0, t_start, t_end: ctx.now(), result: code, conn, seq: 0, who: 0, v6: false });
+                            return;
+                        }
+                    };
+                    let local = s.local_addr().map(|a| a.port()).unwrap_or(0);
+                    let (result, who) = request(&mut s, "/", Duration::from_secs(15));
+                    let t_mid = ctx.now();
+                    ex.lock().unwrap().push(Exchange { kind: 3, local, port_ix: 0, t_start, t_end: t_mid, result, conn, seq: 0, who, v6: false });
+                    if result != 0 {
+                        return;
+                    }
+                    let _ = s.set_read_timeout(Some(limit));
+                    let mut tmp = [0u8; 64];
+                    let result = match s.read(&mut tmp) {
+                        Ok(0) => 10,
+                        Ok(_) => 3,
+                        Err(e) => match e.kind() {
+                            std::io::ErrorKind::WouldBlock | std::io::ErrorKind::TimedOut => 12,
+                            _ => 11,
+                        },
+                    };
+                    ex.lock().unwrap().push(Exchange { kind: 3, local, port_ix: 0, t_start: t_mid, t_end: ctx.now(), result, conn, seq: 1, who, v6: false });
+                }));
+            }
+            if p.nslow > 0 || p.ka & 2 != 0 {
                 std::thread::sleep(Duration::from_millis(15));
             }
             let t_start = ctx.now();
@@ -479,26 +780,42 @@ mod run {
             let inst = start_instance(&ctx, h as u32, p, &ports, &path);
             let t_exec = ctx.now();
             let executed = inst.mgr.is_some();
+            if let Some(m) = &inst.mgr {
+                managers.lock().unwrap().push(Arc::clone(m));
+            }
             instances.push(inst);
-            // the predecessor's wait() resolves within a bound (slow handlers + margin)
-            let pred = &instances[h - 1];
-            let waited = wait_until(&|| pred.waited.load(Ordering::SeqCst), Duration::from_millis(if executed { p.slow_ms + 10_000 } else { 500 }));
-            let t_wait = ctx.now();
-            let served = if p.eager && h < p.handovers {
-                true
-            } else {
-                wait_until(&|| serving.load(Ordering::SeqCst) == h as u64, Duration::from_secs(if executed { 10 } else { 1 }))
-            };
-            timings.push(X::L(vec![
-                X::N(u128::from(t_start)),
-                X::bool(executed),
-                X::N(u128::from(t_exec)),
-                X::bool(waited),
-                X::N(u128::from(t_wait)),
-                X::bool(served),
-            ]));
+            started = h;
+            timings.push(vec![t_start, u64::from(executed), t_exec]);
             if !executed {
                 break;
+            }
+            if !p.eager {
+                let pred = &instances[h - 1];
+                // the predecessor's wait() resolves within a bound (slow handlers, the idle timeout of a kept-alive connection, margin)
+                let waited = wait_until(&|| pred.waited.load(Ordering::SeqCst), Duration::from_millis(p.slow_ms + 15_000));
+                let t_wait = ctx.now();
+                if waited {
+                    wait_until(&|| waiters_done(h as u32 - 1), Duration::from_secs(5));
+                }
+                let served = wait_until(&|| serving.load(Ordering::SeqCst) == h as u64, Duration::from_secs(15));
+                timings[h - 1].extend([u64::from(waited), t_wait, u64::from(served)]);
+            }
+        }
+        if p.eager {
+            // every instance was started as soon as its predecessor's execute() had returned; now let things settle
+            let deadline = Instant::now() + Duration::from_millis(p.slow_ms + 15_000);
+            for h in 1..=started {
+                if timings[h - 1][1] == 0 {
+                    continue;
+                }
+                let pred = &instances[h - 1];
+                let waited = wait_until(&|| pred.waited.load(Ordering::SeqCst), deadline.saturating_duration_since(Instant::now()));
+                let t_wait = ctx.now();
+                if waited {
+                    wait_until(&|| waiters_done(h as u32 - 1), Duration::from_secs(5));
+                }
+                let served = h < started || wait_until(&|| serving.load(Ordering::SeqCst) == h as u64, Duration::from_secs(if waited { 15 } else { 2 }));
+                timings[h - 1].extend([u64::from(waited), t_wait, u64::from(served)]);
             }
         }
         std::thread::sleep(Duration::from_millis(p.gap_ms));
@@ -549,17 +866,10 @@ mod run {
             return X::L(vec![X::N(96), X::N(5)]);
         }
 
+        let n = |v: u64| X::N(u128::from(v));
         let ev = log
             .iter()
-            .map(|e| {
-                X::L(vec![
-                    X::N(u128::from(e.inst)),
-                    X::N(u128::from(e.tid)),
-                    X::b(e.point.as_bytes()),
-                    X::N((i128::from(e.val) + (1i128 << 40)) as u128),
-                    X::N(u128::from(e.t_us)),
-                ])
-            })
+            .map(|e| X::L(vec![n(u64::from(e.inst)), n(e.tid), X::b(e.point.as_bytes()), X::N((i128::from(e.val) + (1i128 << 40)) as u128), n(e.t_us)]))
             .collect();
         let exs = exchanges
             .lock()
@@ -567,41 +877,84 @@ mod run {
             .iter()
             .map(|e| {
                 X::L(vec![
-                    X::bool(e.slow),
-                    X::N(u128::from(e.local)),
-                    X::N(e.port_ix as u128),
-                    X::N(u128::from(e.t_start)),
-                    X::N(u128::from(e.t_end)),
-                    X::N(u128::from(e.result)),
+                    n(u64::from(e.kind)),
+                    n(u64::from(e.local)),
+                    n(e.port_ix as u64),
+                    n(e.t_start),
+                    n(e.t_end),
+                    n(u64::from(e.result)),
+                    n(e.conn),
+                    n(u64::from(e.seq)),
+                    n(u64::from(e.who)),
+                    X::bool(e.v6),
                 ])
             })
             .collect();
-        let who = who_seq.lock().unwrap().iter().map(|(t, id)| X::L(vec![X::N(u128::from(*t)), X::N(u128::from(*id))])).collect();
+        let pr = probes
+            .lock()
+            .unwrap()
+            .iter()
+            .map(|q| X::L(vec![n(q.0), n(q.1), n(q.2), n(u64::from(q.3)), n(u64::from(q.4)), n(u64::from(q.5)), n(q.6)]))
+            .collect();
+        let ws = waiters
+            .lock()
+            .unwrap()
+            .iter()
+            .map(|w| X::L(vec![n(u64::from(w.0)), n(u64::from(w.1)), n(w.2), n(w.3.load(Ordering::SeqCst))]))
+            .collect();
         X::L(vec![
-            X::N(u128::from(stalled)),
-            X::L(ports.iter().map(|p| X::N(u128::from(*p))).collect()),
+            n(u64::from(stalled)),
+            X::L(ports.iter().map(|p| n(u64::from(*p))).collect()),
             X::L(ev),
             X::L(exs),
-            X::L(who),
-            X::L(timings),
+            X::L(pr),
+            X::L(timings.iter().map(|t| X::L(t.iter().map(|v| n(*v)).collect())).collect()),
             X::L(executed_flags),
             X::L(waited_flags),
             X::bool(refuses_after),
+            X::L(ws),
         ])
     }
 }
 
+/// input: (L ports handovers runtime seed jitter-us (L (L (B hook) ms reps from-instance) ...) slow-ms nslow gap-ms eager
+///           keep-alive-bits both-families stale-file block-ms)
 #[cfg(feature = "hooks")]
 pub fn run(x: &X) -> X {
     let l = match x.as_l() {
-        Some(l) if l.len() == 12 => l,
+        Some(l) if l.len() == 14 => l,
         _ => return X::bad(),
     };
-    let n: Vec<u128> = match l.iter().map(X::as_n).collect::<Option<Vec<_>>>() {
-        Some(n) => n,
-        None => return X::bad(),
-    };
-    if n[0] == 0 || n[0] > 4 || n[1] == 0 || n[1] > 4 || n[2] > 1 || n[5] > 2000 || n[6] > 2000 || n[7] > 2000 || n[8] > 5000 || n[9] > 8 || n[10] > 1000 {
+    let mut n = [0u128; 14];
+    for (k, v) in l.iter().enumerate() {
+        if k == 5 {
+            continue;
+        }
+        match v.as_n() {
+            Some(v) => n[k] = v,
+            None => return X::bad(),
+        }
+    }
+    let mut delays = Vec::new();
+    match l[5].as_l() {
+        Some(ds) if ds.len() <= 8 => {
+            for d in ds {
+                match d.as_l() {
+                    Some([name, ms, reps, from]) => match (name.as_b().and_then(|b| std::str::from_utf8(b).ok()), ms.as_n(), reps.as_n(), from.as_n()) {
+                        (Some(name), Some(ms), Some(reps), Some(from)) if ms <= 2000 && reps <= 64 && from <= 9 && name.len() <= 16 => {
+                            delays.push((name.to_owned(), ms as u64, reps as u32, from as u32));
+                        }
+                        _ => return X::bad(),
+                    },
+                    _ => return X::bad(),
+                }
+            }
+        }
+        _ => return X::bad(),
+    }
+    if n[0] == 0 || n[0] > 4 || n[1] == 0 || n[1] > 6 || n[2] > 1 || n[4] > 100_000 || n[6] > 5000 || n[7] > 8 || n[8] > 1000 || n[9] > 1 || n[10] > 3
+        || n[11] > 1 || n[12] > 1 || n[13] > 2000
+    {
         return X::bad();
     }
     let mut out = X::bad();
@@ -609,17 +962,19 @@ pub fn run(x: &X) -> X {
         out = run::run(&run::Params {
             last_attempt: attempt == 1,
             nports: n[0] as usize,
-        handovers: n[1] as usize,
-        flavour: n[2] as u8,
-        seed: n[3] as u64,
-        jitter_us: n[4] as u64,
-        d_bind: n[5] as u64,
-        d_send: n[6] as u64,
-        d_close: n[7] as u64,
-        slow_ms: n[8] as u64,
-        nslow: n[9] as usize,
-        gap_ms: n[10] as u64,
-            eager: n[11] == 1,
+            handovers: n[1] as usize,
+            flavour: n[2] as u8,
+            seed: n[3] as u64,
+            jitter_us: n[4] as u64,
+            delays: delays.iter().map(|d| run::Delay { name: d.0.clone(), ms: d.1, reps: d.2, from: d.3 }).collect(),
+            slow_ms: n[6] as u64,
+            nslow: n[7] as usize,
+            gap_ms: n[8] as u64,
+            eager: n[9] == 1,
+            ka: n[10] as u8,
+            dual: n[11] == 1,
+            stale: n[12] == 1,
+            block_ms: n[13] as u64,
         });
         if !matches!(out.as_l(), Some([X::N(96), X::N(5)])) {
             break;
